@@ -2,6 +2,7 @@ package harness
 
 import (
 	"fmt"
+	"os"
 	"sort"
 	"strings"
 )
@@ -51,6 +52,8 @@ const (
 )
 
 type InvokeInfo struct {
+	Bystanders      int // registered functions outside mayRun at the time of the Invoke
+	BystanderScopes int
 	Op        int
 	Fn        *MFn
 	Zones     Zones
@@ -72,9 +75,34 @@ type VResult struct {
 	DupPred map[int]string
 	// Labels for classification of the case.
 	Labels map[string]bool
+	// Tainted: an Invoke inside the KF-DECO-CYCLE pattern was executed; dig's
+	// state after it is not described by any property, validation stops.
+	Tainted bool
 	// Counters
 	ZoneSkips int
 	Poisoned  map[int64]bool
+	// Demands: per producing function, how often and through which kinds of
+	// path its outputs were delivered.
+	Demands map[int]*Demand
+}
+
+type Demand struct {
+	N     int
+	Kinds map[string]bool
+}
+
+func (v *VResult) demand(prod int, kind string, view int) {
+	if v.Demands == nil {
+		v.Demands = map[int]*Demand{}
+	}
+	d := v.Demands[prod]
+	if d == nil {
+		d = &Demand{Kinds: map[string]bool{}}
+		v.Demands[prod] = d
+	}
+	d.N++
+	d.Kinds[kind] = true
+	d.Kinds[fmt.Sprintf("scope%d", view)] = true
 }
 
 func (v *VResult) add(clause string, op int, format string, a ...interface{}) {
@@ -94,6 +122,11 @@ func (v *VResult) First(clauses ...string) *Finding {
 	}
 	return nil
 }
+
+// strictKF disables the exclusion of known-finding patterns; the driver sets
+// it when it replays the repro of a known finding to see whether it still
+// fails.
+var strictKF = os.Getenv("VERIF_STRICT_KF") != ""
 
 type VOpts struct {
 	// ValidSigs: every Provide/Decorate in the case has a well-formed
@@ -212,6 +245,9 @@ func Validate(c *Case, tr *Trace, vo VOpts) *VResult {
 			if op.F == nil {
 				continue
 			}
+			if v.Tainted {
+				continue
+			}
 			v.validateInvoke(c, tr, rt, i, op, out, rejected)
 		}
 	}
@@ -239,14 +275,30 @@ func (v *VResult) validateInvoke(c *Case, tr *Trace, rt *RT, i int, op Op, out O
 		}
 	}
 	okAtStart := map[int]bool{}
+	bsScopes := map[int]bool{}
 	for id, g := range m.Fns {
 		if g.OkExec >= 0 {
 			okAtStart[id] = true
 		}
+		if !ii.MayRun[id] {
+			ii.Bystanders++
+			bsScopes[g.View] = true
+		}
 	}
+	ii.BystanderScopes = len(bsScopes)
 	zoneSkip := ii.Zones.DecoCycle || ii.Zones.DecoNoProvider || ii.Zones.CtorCycle
 	if zoneSkip {
 		v.ZoneSkips++
+	}
+	if ii.Zones.DecoCycle && strictKF {
+		zoneSkip = ii.Zones.DecoNoProvider || ii.Zones.CtorCycle
+	}
+	if ii.Zones.DecoCycle && !strictKF {
+		// known finding KF-DECO-CYCLE: nothing about this Invoke or the
+		// state it leaves behind is asserted
+		v.Tainted = true
+		v.Labels["excluded-known-deco-cycle"] = true
+		return
 	}
 
 	// Snapshot leaf availability before execution (registrations do not
@@ -345,6 +397,20 @@ func (v *VResult) validateInvoke(c *Case, tr *Trace, rt *RT, i int, op Op, out O
 			ii.Pred = ClOK
 		} else {
 			ii.Pred = ClDig
+			direct := false
+			for _, l := range fn.Leaves {
+				if !l.Opt && !l.IsGroup && m.ExpectSingle(fn, l.Key) == nil {
+					direct = true
+					for _, other := range m.Fns {
+						if other.Kind == KCtor && other.SlotFor(l.Key) >= 0 {
+							v.Labels["provider-not-visible"] = true
+						}
+					}
+				}
+			}
+			if !direct {
+				v.Labels["deep-hole"] = true
+			}
 		}
 		if out.Class != ii.Pred {
 			v.add(CVerdictInvoke, i, "Invoke class %s (%v), model predicts %s (available=%v)", out.Class, out.Err, ii.Pred, avail)
@@ -375,7 +441,17 @@ func (v *VResult) checkLeaf(rt *RT, op int, ii *InvokeInfo, g *MFn, l MLeaf, obs
 			return
 		}
 		exp := m.ExpectSingle(g, l.Key)
+		if exp == nil {
+			for _, other := range m.Fns {
+				if other.Kind == KCtor && other.SlotFor(l.Key) >= 0 {
+					v.Labels["provider-not-visible"] = true
+				}
+			}
+		}
 		if obs.Tok == 0 {
+			if l.Opt && exp != nil && !m.LeafAvailable(g, l) {
+				v.Labels["optional-above-hole"] = true
+			}
 			if l.Opt {
 				if m.LeafAvailable(g, l) && !(ii.Zones.OptDecoUnavail) {
 					v.add(CZeroAvailable, op, "%v leaf %s (%v, optional) is zero although its dependency is available from scope %d", g, l.Path, l.Key, g.View)
@@ -409,6 +485,11 @@ func (v *VResult) checkLeaf(rt *RT, op int, ii *InvokeInfo, g *MFn, l MLeaf, obs
 		if exp.Fn.OkExec != d.Exec {
 			v.add(CBadExec, op, "%v leaf %s received %s but that execution has not completed successfully (ok exec = %d)", g, l.Path, v.descKey(rt, obs.Tok), exp.Fn.OkExec)
 		}
+		kind := "single"
+		if g.Kind == KDeco {
+			kind = "deco-input"
+		}
+		v.demand(exp.Fn.ID, kind, g.View)
 		if l.Opt && !m.LeafAvailable(g, l) {
 			v.add(CNonZeroUnavail, op, "%v leaf %s (%v, optional) is non-zero although the model finds it unavailable", g, l.Path, l.Key)
 		}
@@ -471,6 +552,9 @@ func (v *VResult) checkLeaf(rt *RT, op int, ii *InvokeInfo, g *MFn, l MLeaf, obs
 				}
 				key := fmt.Sprintf("f%d#%d/%s/%d", f.ID, f.OkExec, s.Path, e)
 				memberOf[key] = f
+				if e == 0 {
+					v.demand(f.ID, "group", g.View)
+				}
 				all = append(all, key)
 				want = append(want, key)
 				if okAtStart[f.ID] || mustOther[f.ID] {
@@ -488,9 +572,12 @@ func (v *VResult) checkLeaf(rt *RT, op int, ii *InvokeInfo, g *MFn, l MLeaf, obs
 	if !l.Soft {
 		if strings.Join(got, ",") != strings.Join(want, ",") {
 			v.add(CGroupMultiset, op, "%v group leaf %s (%v): got %v, want %v", g, l.Path, l.Key, got, want)
+		} else if len(want) > 0 {
+			v.Labels["group-request-ok"] = true
 		}
 		return
 	}
+	v.Labels["soft-executed"] = true
 	if ii.Zones.SoftDecorated {
 		return
 	}
